@@ -171,3 +171,45 @@ def _(vc):
     circ = Opaque("circuit", {"properties": Opaque("properties", {"smooth": smooth, "decomposable": dec})})
     exc, _ = vc.raises(lambda: vc.new(f"{QU}:SamplingQuery", circ))
     vc.ensure("circuits_that_are_not_smooth_and_decomposable_refused", exc == "ValueError")
+
+
+# ------------------------------------------------------------------------------------------------ optimized layers
+LO_ = "cirkit/backend/torch/layers/optimized.py"
+
+for _H in (2, 3):
+    def _h(vc, _H=_H):
+        """TorchTuckerLayer (Sum o Kronecker fused by optimize=True): draws, per fold and output unit, a column m of the weight - the column
+        of the unit tuple (i_0..i_{H-1}), first input major, exactly the column the forward pass multiplies with PROD_h x_h[i_h] - and returns
+        the sum of the samples of unit i_h of input h"""
+        F, K, Ko, N, D = (vc.int(n, lo=1) for n in ("F", "K", "Ko", "N", "D"))
+        Kk = K
+        for _ in range(_H - 1):
+            Kk = Kk * K
+        W, Wt = param(vc, "weight", F, (Ko, Kk))
+        layer = vc.new(f"{LO_}:TorchTuckerLayer", K, Ko, _H, weight=W, semiring=semiring(vc), num_folds=F)
+        x = vc.tensor("x", (F, _H, K, N, D))
+        exc, res = vc.raises(lambda: vc.call((layer, "sample"), x))
+        if exc is not None:
+            vc.ensure("only_refusal_is_for_negative_or_unnormalised_weights", z3.Or(exc == "ValueError", exc == "TypeError"))
+            return
+        y, mix = list(vc.I.B.iterate(vc.I, res))
+        if not shape_is(vc, y, [F, Ko, N, D]):
+            return
+        draws = vc.I.__dict__.get("categorical_draws", [])
+        vc.ensure("one_categorical_draw_from_the_weights", len(draws) == 1 and draws[0][1] is Wt)
+        if len(draws) != 1:
+            return
+        m_t = draws[0][0]
+        f, o, n, d = vc.index_consts([F, Ko, N, D])
+        ii = vc.index_consts([K] * _H, "i")
+        m = m_t.elem([n, f, o])
+        col = ii[0]
+        for h in range(1, _H):
+            col = col * to_z3(K) + ii[h]
+        want = x.elem([f, 0, ii[0], n, d])
+        for h in range(1, _H):
+            want = want + x.elem([f, h, ii[h], n, d])
+        vc.ensure("sample_of_the_drawn_unit_tuple_first_input_major", z3.Implies(m == col, y.elem([f, o, n, d]) == want))
+        if shape_is(vc, mix, [F, Ko, N], "mixture_index_shape"):
+            vc.ensure("returns_the_drawn_components", mix.elem([f, o, n]) == m)
+    obligation(f"C15.sample.TorchTuckerLayer.arity{_H}", "C15", [f"{LO_}:TorchTuckerLayer.sample"])(_h)
